@@ -11,7 +11,7 @@ KINDS = {
     "C03": {"align", "usable", "crash-aligned"},
     "C16": {"goodsize"},
     "C04": {"zero", "rezalloc-zero"},
-    "C05": {"realloc-content", "expand", "usable"},
+    "C05": {"realloc-content", "expand", "usable", "realloc-null"},
     "C06": {"malformed", "posix", "errno", "fail"},
     "C10": {"owner", "heap", "content", "overlap", "crash"},
     "C12": {"walk"},
